@@ -145,3 +145,61 @@ def cfg_nodes_containing(cfg, expr):
                 out.append(cn)
                 break
     return out
+
+
+def const_strings(program, func, expr, _depth=0):
+    """The set of string constants an expression denotes, folding literal
+    tuples/lists/sets, concatenation/union, tuple()/set()/frozenset() wrappers
+    and names bound once to such a value (locally or at module level).
+    None if it is not such a constant."""
+    if _depth > 6 or expr is None:
+        return None
+    if isinstance(expr, ast.Constant) and isinstance(expr.value, str):
+        return {expr.value}
+    if isinstance(expr, (ast.Tuple, ast.List, ast.Set)):
+        out = set()
+        for e in expr.elts:
+            if isinstance(e, ast.Starred):
+                sub = const_strings(program, func, e.value, _depth + 1)
+            else:
+                sub = const_strings(program, func, e, _depth + 1) if not isinstance(e, ast.Constant) else ({e.value} if isinstance(e.value, str) else None)
+            if sub is None:
+                return None
+            out |= sub
+        return out
+    if isinstance(expr, ast.BinOp) and isinstance(expr.op, (ast.Add, ast.BitOr)):
+        a = const_strings(program, func, expr.left, _depth + 1)
+        b = const_strings(program, func, expr.right, _depth + 1)
+        return None if a is None or b is None else a | b
+    if isinstance(expr, ast.Call) and isinstance(expr.func, ast.Name) and expr.func.id in ("tuple", "list", "set", "frozenset") and len(expr.args) == 1:
+        return const_strings(program, func, expr.args[0], _depth + 1)
+    if isinstance(expr, ast.Name):
+        local = [n for n in walk_own(func.node) if isinstance(n, ast.Assign) and any(isinstance(t, ast.Name) and t.id == expr.id for t in n.targets)]
+        if len(local) == 1:
+            return const_strings(program, func, local[0].value, _depth + 1)
+        if local:
+            return None
+        r = program.resolve_name(func.module, expr.id)
+        if r is not None and r[0] == "const":
+            modfunc = func
+            return const_strings(program, _ModuleScope(func.module), r[1], _depth + 1)
+        return None
+    if isinstance(expr, ast.Attribute) and isinstance(expr.value, ast.Name):
+        # Class.CONST or self.CONST (class-level constant)
+        cls = program.classes.get(expr.value.id) or (func.cls if getattr(func, "selfname", None) == expr.value.id else None)
+        if cls is not None:
+            from ..model import mangle
+            for c in cls.mro():
+                v = c.assigns.get(mangle(c.name, expr.attr))
+                if v is not None:
+                    return const_strings(program, _ModuleScope(c.module), v, _depth + 1)
+    return None
+
+
+class _ModuleScope:
+    """stand-in for a function when folding module-level constants"""
+    def __init__(self, module):
+        self.module = module
+        self.node = ast.Module(body=[], type_ignores=[])
+        self.cls = None
+        self.selfname = None
